@@ -11,6 +11,7 @@
 package c13
 
 import (
+	"errors"
 	"encoding/hex"
 	"encoding/json"
 	"fmt"
@@ -26,7 +27,10 @@ import (
 	"testing"
 	"time"
 
+	"github.com/nspcc-dev/neo-go/pkg/config"
 	"github.com/nspcc-dev/neo-go/pkg/core/fee"
+	"github.com/nspcc-dev/neo-go/pkg/crypto/hash"
+	"github.com/nspcc-dev/neo-go/pkg/smartcontract/callflag"
 	"github.com/nspcc-dev/neo-go/pkg/util"
 	"github.com/nspcc-dev/neo-go/pkg/vm"
 	"github.com/nspcc-dev/neo-go/pkg/vm/opcode"
@@ -52,10 +56,24 @@ type implRes struct {
 
 const implGasLimit = 100_0000_0000 // 100 GAS in datoshi: a guard against endless loops, never reached by our programs
 
-func runImpl(script []byte) implRes { return runImplOpt(script, true) }
+func runImpl(p prog) implRes { return runImplOpt(p, true) }
+
+// runSpec runs the model on a program.
+func runSpec(p prog) *sv.VM {
+	var m *sv.VM
+	if p.Extra != nil {
+		m = sv.NewHost(p.Script, p.Extra, p.RV)
+	} else {
+		m = sv.New(p.Script)
+	}
+	m.PreGorgon = p.PreGorgon
+	m.Run(specStepLimit)
+	return m
+}
 
 // runImplOpt: countSteps installs the per-instruction hook (first run only).
-func runImplOpt(script []byte, countSteps bool) (res implRes) {
+func runImplOpt(p prog, countSteps bool) (res implRes) {
+	script := p.Script
 	defer func() {
 		if r := recover(); r != nil {
 			res.State = "PANIC"
@@ -79,6 +97,30 @@ func runImplOpt(script []byte, countSteps bool) (res implRes) {
 	steps := 0
 	if countSteps {
 		v.SetOnExecHook(func(util.Uint160, int, opcode.Opcode) { steps++ })
+	}
+	if p.PreGorgon {
+		v.SetIsHardforkEnabled(func(config.Hardfork) bool { return false })
+	}
+	if p.Extra != nil {
+		// The miniature host (see specvm, SYSCALL): service id pops one item,
+		// loads script id as a new context (own evaluation stack, return value
+		// count RV) and hands it the item.
+		all := append([][]byte{script}, p.Extra...)
+		rv := append([]int{-1}, p.RV...)
+		v.SyscallHandler = func(v *vm.VM, id uint32) error {
+			if int(id) >= len(all) {
+				return errors.New("unknown service")
+			}
+			arg := v.Estack().Pop().Item()
+			code := append([]byte{}, all[id]...)
+			if rv[id] == 1 {
+				v.LoadScriptWithHash(code, hash.Hash160(code), callflag.All)
+			} else {
+				v.LoadScriptWithFlags(code, callflag.All)
+			}
+			v.Estack().PushItem(arg)
+			return nil
+		}
 	}
 	v.LoadScript(script)
 	err := v.Run()
@@ -188,7 +230,17 @@ func hexAbbrev(d []byte) string {
 // implementation's, including the sharing structure: reference-type objects
 // (Buffer, Array, Struct, Map) must correspond one to one. It returns "" or
 // the first difference.
-func sameStacks(sp []*sv.Item, im []stackitem.Item) string {
+// scriptHashes: hashes of the scripts of a program, indexed like specvm's
+// Item.Sid (0 = entry script).
+func scriptHashes(p prog) []util.Uint160 {
+	h := []util.Uint160{hash.Hash160(p.Script)}
+	for _, e := range p.Extra {
+		h = append(h, hash.Hash160(e))
+	}
+	return h
+}
+
+func sameStacks(sp []*sv.Item, im []stackitem.Item, hashes []util.Uint160) string {
 	if len(sp) != len(im) {
 		return fmt.Sprintf("stack depth: spec %d, impl %d", len(sp), len(im))
 	}
@@ -234,7 +286,7 @@ func sameStacks(sp []*sv.Item, im []stackitem.Item) string {
 				return mismatch()
 			}
 		case sv.TPointer:
-			if t, ok := b.(*stackitem.Pointer); !ok || t.Position() != a.Pos {
+			if t, ok := b.(*stackitem.Pointer); !ok || t.Position() != a.Pos || a.Sid >= len(hashes) || t.ScriptHash() != hashes[a.Sid] {
 				return mismatch()
 			}
 		case sv.TBuffer:
@@ -314,6 +366,12 @@ type prog struct {
 	Key     string // stable, "<opcode>:<operands>"
 	Class   string // opcode (or shape) used for outcome classes
 	Script  []byte
+	// Extra/RV: scripts the miniature SYSCALL host can load (service ids
+	// 1..n) and their return value counts (-1 or 1).
+	Extra [][]byte
+	RV    []int
+	// PreGorgon: run both sides with all hardforks disabled.
+	PreGorgon bool
 }
 
 // caseRec is what is written to samples and replay files.
@@ -321,6 +379,9 @@ type caseRec struct {
 	Section   string `json:"section"`
 	Key       string `json:"key"`
 	Script    string `json:"script_hex"`
+	Extra     []string `json:"host_scripts_hex,omitempty"`
+	RV        []int    `json:"host_return_counts,omitempty"`
+	PreGorgon bool     `json:"pre_gorgon,omitempty"`
 	Disasm    string `json:"disasm,omitempty"`
 	Oracle    string `json:"oracle,omitempty"`
 	Diff      string `json:"difference,omitempty"`
@@ -389,6 +450,10 @@ func record(p prog, m *sv.VM, a implRes) caseRec {
 	c := caseRec{Section: p.Section, Key: p.Key, Script: hex.EncodeToString(p.Script), Disasm: disasm(p.Script),
 		SpecState: m.State.String(), SpecFault: m.FaultMsg, SpecUndet: m.Undet,
 		ImplState: a.State, ImplErr: a.Err, ImplGas: a.Gas}
+	for _, e := range p.Extra {
+		c.Extra = append(c.Extra, hex.EncodeToString(e))
+	}
+	c.RV, c.PreGorgon = p.RV, p.PreGorgon
 	if len(c.Script) > 40000 {
 		c.Script = c.Script[:40000] + "...(truncated; regenerate from key)"
 	}
@@ -414,15 +479,15 @@ func clip(s string) string {
 // check runs one program on the model and twice on the implementation and
 // evaluates the oracle. It returns false if a violation was reported.
 func (s *stats) check(p prog) bool {
-	m := sv.Run(p.Script, specStepLimit)
+	m := runSpec(p)
 	s.specSteps.Add(int64(m.Steps))
 	if m.Undet == "step-limit" {
 		// The model does not decide termination; the program is not run.
 		s.noteUndet("step-limit(not run)")
 		return true
 	}
-	a := runImpl(p.Script)
-	b := runImplOpt(p.Script, false)
+	a := runImpl(p)
+	b := runImplOpt(p, false)
 	b.Steps = a.Steps
 	s.implRuns.Add(2)
 	s.transitions.Add(int64(a.Steps))
@@ -451,7 +516,7 @@ func (s *stats) check(p prog) bool {
 		s.noteUndet(m.Undet)
 		// Not part of the oracle: how often the model's reading of the
 		// reference would have differed from the implementation there.
-		if m.State.String() != a.State || (m.State == sv.HALT && sameStacks(m.Result, a.Stack) != "") {
+		if m.State.String() != a.State || (m.State == sv.HALT && sameStacks(m.Result, a.Stack, scriptHashes(p)) != "") {
 			s.noteSection("undet-differs:"+m.Undet, 1)
 		}
 		return true
@@ -478,7 +543,7 @@ func (s *stats) check(p prog) bool {
 	}
 	if m.State == sv.HALT {
 		s.halts.Add(1)
-		if d := sameStacks(m.Result, a.Stack); d != "" {
+		if d := sameStacks(m.Result, a.Stack, scriptHashes(p)); d != "" {
 			viol("stack", d)
 			return false
 		}
@@ -710,8 +775,8 @@ func TestCheck(t *testing.T) {
 // clean tree.
 func writeRecordedSample() {
 	p := prog{Section: "recorded", Key: "MODPOW:-1,3,3", Class: "MODPOW", Script: cat(pushI(-1), pushI(3), pushI(3), op(sv.MODPOW))}
-	m := sv.Run(p.Script, specStepLimit)
-	a := runImpl(p.Script)
+	m := runSpec(p)
+	a := runImpl(p)
 	dir := filepath.Join(vk.ReplayRoot(), "C13")
 	_ = os.MkdirAll(dir, 0o755)
 	b, _ := json.MarshalIndent(map[string]any{"property": "C13", "key": p.Key, "tier": "quick", "detail": record(p, m, a)}, "", " ")
@@ -729,11 +794,15 @@ func replay(r *vk.Run, st *stats) {
 		fmt.Println("replay file has no complete script (", err, "); regenerate it from its key:", c.Key)
 		os.Exit(3)
 	}
-	p := prog{Section: c.Section, Key: c.Key, Class: "replay", Script: script}
+	p := prog{Section: c.Section, Key: c.Key, Class: "replay", Script: script, RV: c.RV, PreGorgon: c.PreGorgon}
+	for _, e := range c.Extra {
+		x, _ := hex.DecodeString(e)
+		p.Extra = append(p.Extra, x)
+	}
 	outs := map[string]int{}
 	for i := 0; i < 5; i++ {
-		m := sv.Run(script, specStepLimit)
-		a := runImpl(script)
+		m := runSpec(p)
+		a := runImpl(p)
 		clean := st.check(p)
 		outs[fmt.Sprintf("spec=%s[%s]%s impl=%s[%s] gas=%d err=%q clean=%v", m.State, clip(sv.Canon(m.Result)), m.Undet, a.State, clip(a.Canon), a.Gas, a.Err, clean)]++
 	}
